@@ -122,6 +122,7 @@ func (c *Client) Update(targets ...string) {
 	c.list = list{}
 	c.minHeap = list{}
 	c.last = []string{}
+	vhook("k.update", c, nil, uint64(len(m)), 0)
 	c.lock.Unlock()
 }
 
@@ -216,6 +217,7 @@ func (c *Client) Ping() error {
 // Fallback pauses the client within the duration.
 func (c *Client) Fallback(d time.Duration) {
 	atomic.AddInt32(&c.fallback, 1)
+	vhook("k.fb", c, nil, 1, 0)
 	timer := time.NewTimer(d)
 	go func() {
 		select {
@@ -224,6 +226,7 @@ func (c *Client) Fallback(d time.Duration) {
 			timer.Stop()
 		}
 		atomic.AddInt32(&c.fallback, -1)
+		vhook("k.fb", c, nil, 0, 0)
 	}()
 }
 
@@ -235,12 +238,14 @@ func (c *Client) Close() (err error) {
 		err = c.Transport.Close()
 	}
 	if atomic.CompareAndSwapUint32(&c.closed, 0, 1) {
+		vhook("k.close", c, nil, 0, 0)
 		if c.done != nil {
 			close(c.done)
 		}
 		for seq, w := range c.pending {
 			delete(c.pending, seq)
 			w.err = ErrShutdown
+			vhook("k.close.wake", c, nil, seq, 0)
 			w.done()
 		}
 	}
@@ -256,12 +261,14 @@ func (c *Client) transport() RoundTripper {
 
 func (c *Client) director() (address string, t *target, err error) {
 	if atomic.LoadUint32(&c.closed) > 0 {
+		vhook("k.route.closed", c, nil, 0, 0)
 		return "", nil, ErrShutdown
 	}
 	if atomic.LoadInt32(&c.fallback) == 0 {
 		if c.Director != nil {
 			address = c.Director()
 			if len(address) > 0 {
+				vhook("k.route.director", c, nil, vstr(address), 0)
 				return address, nil, nil
 			}
 		}
@@ -282,6 +289,7 @@ func (c *Client) director() (address string, t *target, err error) {
 	select {
 	case <-w.Done:
 		timer.Stop()
+		vhook("k.waiter.ret", c, nil, w.seq, vbool(w.err != nil))
 		resetWaiterDone(done)
 		c.donePool.Put(done)
 		err = w.err
@@ -296,6 +304,7 @@ func (c *Client) director() (address string, t *target, err error) {
 		seq := w.seq
 		c.lock.Lock()
 		delete(c.pending, seq)
+		vhook("k.timeout", c, nil, seq, 0)
 		c.lock.Unlock()
 		err = ErrTimeout
 	}
@@ -308,12 +317,14 @@ func (c *Client) wait(w *waiter) {
 		w.seq = c.seq
 		c.seq++
 		c.pending[w.seq] = w
+		vhook("k.wait", c, nil, w.seq, 0)
 	}
 	c.lock.Unlock()
 }
 
 func (c *Client) checkClosed(s *waiter) bool {
 	if atomic.LoadUint32(&c.closed) == 1 {
+		vhook("k.wait.closed", c, nil, 0, 0)
 		s.err = ErrShutdown
 		s.done()
 		return true
@@ -323,6 +334,7 @@ func (c *Client) checkClosed(s *waiter) bool {
 
 func (c *Client) schedule() (string, *target, error) {
 	if len(c.list) == 1 {
+		vhook("k.sched", c, c.list[0], 0, 0)
 		return c.list[0].address, nil, nil
 	}
 	if len(c.list) > 1 {
@@ -330,26 +342,32 @@ func (c *Client) schedule() (string, *target, error) {
 		switch c.Scheduling {
 		case RoundRobinScheduling:
 			t = c.list[c.pos]
+			vhook("k.sched", c, t, 1, uint64(c.pos))
 			c.pos = (c.pos + 1) % len(c.list)
 		case RandomScheduling:
 			pos := rand.Intn(len(c.list))
 			t = c.list[pos]
+			vhook("k.sched", c, t, 2, uint64(pos))
 		case LeastTimeScheduling:
 			now := time.Now()
 			if c.lastTime.Add(c.Tick).Before(now) {
 				c.lastTime = now
 				t = c.list[c.pos]
+				vhook("k.sched", c, t, 3, uint64(c.pos))
 				c.pos = (c.pos + 1) % len(c.list)
 			} else {
 				minHeap(c.minHeap)
 				t = c.minHeap[0]
+				vhook("k.sched", c, t, 4, uint64(len(c.minHeap)))
 			}
 		default:
 			t = c.list[c.pos]
+			vhook("k.sched", c, t, 5, uint64(c.pos))
 			c.pos = (c.pos + 1) % len(c.list)
 		}
 		return emptyString, t, nil
 	}
+	vhook("k.sched", c, nil, 6, 0)
 	return emptyString, nil, ErrDial
 }
 
@@ -368,10 +386,12 @@ func (c *Client) run() {
 
 func (c *Client) detect() {
 	c.lock.Lock()
+	vhook("k.detect", c, nil, uint64(len(c.targets)), uint64(len(c.list)))
 	for address := range c.targets {
 		t := c.targets[address]
 		if t.alive == false {
 			go c.check(t)
+			vhook("k.probe", c, t, 0, 0)
 		}
 	}
 	c.checkPending()
@@ -411,6 +431,7 @@ func (c *Client) check(t *target) (alive bool) {
 		c.minHeap = list{}
 		c.last = []string{}
 	}
+	vhook("k.check", c, t, vbool(alive), uint64(len(c.list)))
 	c.lock.Unlock()
 	return
 }
@@ -419,6 +440,7 @@ func (c *Client) checkPending() {
 	if atomic.LoadInt32(&c.fallback) == 0 && len(c.list) > 0 {
 		for seq, w := range c.pending {
 			delete(c.pending, seq)
+			vhook("k.wake", c, nil, seq, 0)
 			w.done()
 		}
 	}
@@ -432,6 +454,7 @@ type target struct {
 
 func (t *target) Update(alpha float64, new int64, err error) {
 	old := atomic.LoadInt64(&t.latency)
+	vhook("k.ewma.in", nil, t, uint64(old), uint64(new))
 	if !t.Alive(err) {
 		atomic.StoreInt64(&t.latency, clientLatency)
 	} else if old >= clientLatency {
@@ -439,6 +462,7 @@ func (t *target) Update(alpha float64, new int64, err error) {
 	} else {
 		atomic.StoreInt64(&t.latency, int64(float64(old)*alpha+float64(new)*(1-alpha)))
 	}
+	vhook("k.ewma.out", nil, t, uint64(atomic.LoadInt64(&t.latency)), vbool(t.alive))
 }
 
 func (t *target) Alive(err error) bool {
